@@ -1352,8 +1352,36 @@ func (ev *Env) builtinSpec(name string, argEs []Expr) (T, bool) {
 			stale("seen(): no map iteration at this loop")
 		}
 		return T{fmt.Sprintf("(select %s %s)", vc.heapGet(ev.st, it.seen), a.S), "Bool", boolT}, true
-	case "typeIs":
-		// typeIs(x, "pkg.Type") for interface values — not needed yet
+	case "typeIs", "as":
+		// typeIs(x, T): the dynamic type of interface value x is exactly T (a type name, or ptr(T) spelled "ptr_T");
+		// as(x, T): the value stored in x, meaningful when typeIs(x, T)
+		if len(argEs) != 2 {
+			stale("%s(x, T) takes two arguments", name)
+		}
+		tn := ""
+		switch te := argEs[1].(type) {
+		case *EIdent:
+			tn = te.Name
+		case *ESel:
+			if id, ok := te.X.(*EIdent); ok {
+				tn = id.Name + "." + te.Name
+			}
+		}
+		if tn == "" {
+			stale("%s: second argument must be a type name", name)
+		}
+		if strings.HasPrefix(tn, "ptr_") {
+			tn = "*" + tn[4:]
+		}
+		gt, srt := ev.resolveType(tn)
+		x := arg(0)
+		vc.decl("itag", "(declare-fun itag (Int) Int)")
+		if name == "typeIs" {
+			return T{fmt.Sprintf("(and (not (= %s 0)) (= (itag %s) %s))", x.S, x.S, vc.typeTag(gt)), "Bool", boolT}, true
+		}
+		pf := "ipay_" + sortTag(srt)
+		vc.decl(pf, fmt.Sprintf("(declare-fun %s (Int) %s)", pf, srt))
+		return T{fmt.Sprintf("(%s %s)", pf, x.S), srt, gt}, true
 	}
 	return T{}, false
 }
